@@ -62,7 +62,7 @@ func runSolverCtx(parent context.Context, s solverSpec, file string, timeoutS, s
 	case "timeout":
 		return "timeout", text, el
 	}
-	if ctx.Err() != nil || strings.Contains(text, "timeout") || strings.Contains(text, "interrupted") {
+	if ctx.Err() != nil || strings.Contains(text, "timeout") || strings.Contains(text, "interrupted") || strings.TrimSpace(text) == "" {
 		return "timeout", text, el
 	}
 	return "error", text, el
